@@ -247,6 +247,8 @@ def const_value(e):
         return e.val
     if e.k == 'null':
         return 0
+    if e.k == 'var' and e.dk == 'EnumConstantDecl' and e.val is not None:
+        return e.val
     if e.k == 'un' and e.op == '-':
         v = const_value(e.a[0])
         return None if v is None else -v
